@@ -46,7 +46,7 @@ var classNames = []string{"clean", "ego_error", "budget_exhausted", "panic_recov
 const (
 	maxPhases  = 24
 	stateWords = 8 + maxPhases*nClasses
-	chunkSize  = 500
+	chunkSize  = 64
 
 	// instructionBudget bounds one evaluation; the seeds need a few hundred
 	// instructions. It is a count of dispatched bytecode instructions (the
